@@ -1,7 +1,7 @@
 // L7: trait impls and CtOption-returning forms over the proved inherent functions -- shared vocabulary.
 //
 // This unit holds (a) the rest of the model of the external crate `subtle` 2.6.1 that the trait forms need
-// (operators on `Choice`, `CtOption::{expect, unwrap, is_none, and_then, map}`, `ConstantTimeEq for u64`) -- ASSUMED,
+// (operators on `Choice`, `CtOption::{expect, unwrap, is_none, and_then, map}`, `ConstantTimeEq for u64`, `From<Choice> for bool`) -- ASSUMED,
 // same status as the model in l2_subtle.rs; (b) hand-written declarations of the crate traits of /repo/src/traits.rs
 // and of the `num_traits` traits the crate implements (trait declarations are not extracted); (c) the /repo glue
 // that every other l7 unit uses (`From<ConstCtOption<T>> for CtOption<T>`, `ConstantTimeEq for Limb`, `Zero`,
@@ -31,6 +31,10 @@ verus! {
 // model of subtle 2.6.1, continued (external crate; ASSUMED)
 // ------------------------------------------------------------------------------------------------
 
+pub open spec fn choice_and(a: Choice, b: Choice) -> Choice { Choice(a.0 & b.0) }
+pub open spec fn choice_or(a: Choice, b: Choice) -> Choice { Choice(a.0 | b.0) }
+pub open spec fn choice_not(a: Choice) -> Choice { Choice(1u8 & (!a.0)) }
+
 // subtle: `impl BitAnd for Choice { fn bitand(self, rhs) -> Choice { (self.0 & rhs.0).into() } }`
 impl core::ops::BitAnd for Choice {
     type Output = Choice;
@@ -41,7 +45,7 @@ impl core::ops::BitAnd for Choice {
 impl vstd::std_specs::ops::BitAndSpecImpl<Choice> for Choice {
     open spec fn obeys_bitand_spec() -> bool { true }
     open spec fn bitand_req(self, rhs: Choice) -> bool { true }
-    open spec fn bitand_spec(self, rhs: Choice) -> Choice { Choice(self.0 & rhs.0) }
+    open spec fn bitand_spec(self, rhs: Choice) -> Choice { choice_and(self, rhs) }
 }
 // subtle: `impl BitOr for Choice { fn bitor(self, rhs) -> Choice { (self.0 | rhs.0).into() } }`
 impl core::ops::BitOr for Choice {
@@ -53,7 +57,7 @@ impl core::ops::BitOr for Choice {
 impl vstd::std_specs::ops::BitOrSpecImpl<Choice> for Choice {
     open spec fn obeys_bitor_spec() -> bool { true }
     open spec fn bitor_req(self, rhs: Choice) -> bool { true }
-    open spec fn bitor_spec(self, rhs: Choice) -> Choice { Choice(self.0 | rhs.0) }
+    open spec fn bitor_spec(self, rhs: Choice) -> Choice { choice_or(self, rhs) }
 }
 // subtle: `impl Not for Choice { fn not(self) -> Choice { (1u8 & (!self.0)).into() } }`
 impl core::ops::Not for Choice {
@@ -65,15 +69,15 @@ impl core::ops::Not for Choice {
 impl vstd::std_specs::ops::NotSpecImpl for Choice {
     open spec fn obeys_not_spec() -> bool { true }
     open spec fn not_req(self) -> bool { true }
-    open spec fn not_spec(self) -> Choice { Choice(1u8 & (!self.0)) }
+    open spec fn not_spec(self) -> Choice { choice_not(self) }
 }
 
 pub proof fn lemma_choice_ops(a: Choice, b: Choice)
     requires a.wf(), b.wf()
     ensures
-        Choice(a.0 & b.0).wf(), Choice(a.0 & b.0).t() == (a.t() && b.t()),
-        Choice(a.0 | b.0).wf(), Choice(a.0 | b.0).t() == (a.t() || b.t()),
-        Choice(1u8 & (!a.0)).wf(), Choice(1u8 & (!a.0)).t() == !a.t(),
+        choice_and(a, b).wf(), choice_and(a, b).t() == (a.t() && b.t()),
+        choice_or(a, b).wf(), choice_or(a, b).t() == (a.t() || b.t()),
+        choice_not(a).wf(), choice_not(a).t() == !a.t(),
 {
     let x = a.0; let y = b.0;
     assert((x == 0 || x == 1) && (y == 0 || y == 1) ==> ((x & y) == 0 || (x & y) == 1) && ((x & y) == 1) == (x == 1 && y == 1)
@@ -108,8 +112,53 @@ impl<T> CtOption<T> {
     // subtle: `!self.is_some`
     #[verifier::external_body]
     pub fn is_none(&self) -> (r: Choice)
-        ensures r == Choice(1u8 & (!self.is_some.0))
+        ensures r == choice_not(self.is_some)
     { Choice(1u8 & (!self.is_some.0)) }
+}
+
+/// Ghost stand-in for `<T as Default>::default()`, which `CtOption::and_then` / `map` pass to the closure when the
+/// option is none: `is_default(x)` is what is known about that value. Instances (hand-written from the `Default` impls
+/// of /repo: `Int::default() == Int::ZERO`, `Uint::default() == Uint::ZERO`, `NonZero::<T>::default() == NonZero(T::ONE)`;
+/// ASSUMED, those impls are not extracted).
+pub trait CtDefault: Sized {
+    spec fn is_default(x: Self) -> bool;
+}
+impl<const LIMBS: usize> CtDefault for Uint<LIMBS> {
+    open spec fn is_default(x: Self) -> bool { x.v() == 0 }
+}
+impl<const LIMBS: usize> CtDefault for Int<LIMBS> {
+    open spec fn is_default(x: Self) -> bool { x.iv() == 0 }
+}
+impl<const LIMBS: usize> CtDefault for NonZero<Uint<LIMBS>> {
+    open spec fn is_default(x: Self) -> bool { x.0.v() == 1 }
+}
+impl<const LIMBS: usize> CtDefault for NonZero<Int<LIMBS>> {
+    open spec fn is_default(x: Self) -> bool { x.0.iv() == 1 }
+}
+
+/// the argument that `and_then` / `map` hand to the closure:
+/// `T::conditional_select(&T::default(), &self.value, self.is_some)`
+pub open spec fn ct_closure_arg<T: CtDefault>(o: CtOption<T>, x: T) -> bool {
+    if o.is_some.t() { x == o.value } else { T::is_default(x) }
+}
+
+impl<T: CtDefault> CtOption<T> {
+    // subtle: `let mut tmp = f(T::conditional_select(&T::default(), &self.value, self.is_some)); tmp.is_some &= self.is_some; tmp`
+    // (bounds `T: Default + ConditionallySelectable` replaced by the ghost bound `CtDefault`). The closure is ALWAYS called.
+    #[verifier::external_body]
+    pub fn and_then<U, F: FnOnce(T) -> CtOption<U>>(self, f: F) -> (r: CtOption<U>)
+        requires self.is_some.wf(), forall|x: T| ct_closure_arg(self, x) ==> call_requires(f, (x,))
+        ensures exists|x: T, tmp: CtOption<U>| ct_closure_arg(self, x) && call_ensures(f, (x,), tmp)
+            && r.value == tmp.value && r.is_some == choice_and(tmp.is_some, self.is_some)
+    { unimplemented!() }
+
+    // subtle: `CtOption::new(f(T::conditional_select(&T::default(), &self.value, self.is_some)), self.is_some)`
+    #[verifier::external_body]
+    pub fn map<U, F: FnOnce(T) -> U>(self, f: F) -> (r: CtOption<U>)
+        requires self.is_some.wf(), forall|x: T| ct_closure_arg(self, x) ==> call_requires(f, (x,))
+        ensures exists|x: T| ct_closure_arg(self, x) && call_ensures(f, (x,), r.value),
+            r.is_some == self.is_some
+    { unimplemented!() }
 }
 
 // subtle: `impl ConstantTimeEq for u64` (generated by `generate_integer_equal!`): 1 iff equal
